@@ -243,3 +243,13 @@ for tseq in range(4):
                 unwind=10, timeout=300, threads=2, model_only=True,
                 desc='stack list schedule: threads %s, actions %s (0 use, 1 initializer scope, 2 thread exit)%s' % ([tseq & 1, tseq >> 1 & 1], [aseq % 3, aseq // 3], ', then program exit' if ex else ''),
                 bounds='2 threads, 2 steps at API granularity (schedule is a constant of the query), thread_local state modelled per thread')
+
+# ---------------------------------------------------------------- fixed block sources, static / virtual memory allocators
+BL = {1: ('static_block_allocator', ['C01', 'C03', 'C05', 'C12', 'C16', 'C18']), 2: ('virtual_block_allocator', ['C01', 'C03', 'C05', 'C12', 'C16']),
+      3: ('static_allocator', ['C01', 'C02', 'C03', 'C18']), 4: ('virtual_memory_allocator', ['C01', 'C03', 'C05', 'C09', 'C18'])}
+for case, (nm, props) in BL.items():
+    for cfg, tier in (('ptr', 'quick'), ('check', 'quick'), ('baseline', 'thorough'), ('debug8', 'thorough')):
+        if case == 4 and cfg in ('baseline', 'debug8'): continue     # page-sized fills of the phantom pages: not modelled
+        add('blocks-%d-%s' % (case, cfg), props, 'blocks', 'blocks_step.c', config=cfg, defines=['CASE=%d' % case, 'HEAP_SIZE=384', 'IR_HOOK_MMAP', 'IR_HOOK_MALLOC'],
+            unwind=8, timeout=300, tier=tier, desc='%s: one operation from an arbitrary valid state (allocate, LIFO release, out-of-order release, move + moved-from destructor, destructor)' % nm,
+            bounds='<= 4 blocks of 1..2 pages, page size 32 (constant of the query), OS calls may fail, node size <= 255')
